@@ -4,6 +4,7 @@
 Require Import FstV.Base FstV.Pack FstV.Node FstV.Registry FstV.Builder FstV.GraphSem FstV.Format
                FstV.CodecSpec FstV.Fst.
 Require Import Coq.FSets.FMapPositive.
+Require FstV.proofs.BuilderBasics.
 
 (* ---------- the ghost store: the nodes written so far, newest (highest address) first ---------- *)
 Definition store := list (N * snode).
@@ -138,6 +139,23 @@ Fixpoint Cpost (cl : N -> kmap) (st : list unf) (tail : kmap) (p : nat) (v : N) 
   end.
 Definition Cstk (cl : N -> kmap) (st : list unf) : Prop := Cpost cl st [] O 0.
 
+(* ---------- minimality (C12): no duplicates without eviction, reachability ---------- *)
+Definition strip (E : store) : list (N * bnode) := map (fun x => (fst x, bn_of (snd x))) E.
+Definition is_sentinel (n : bnode) : Prop := n_final n = true /\ n_trans n = [] /\ n_fout n = 0.
+(* the empty final node is never written; unless the cache is degenerate, while nothing has been
+   evicted the cache holds exactly the written nodes (BuilderBasics.reg_inv) *)
+Definition Ginv (zg : bool) (b : builder) (E : store) : Prop :=
+  Forall (fun x => ~ is_sentinel (snd x)) (strip E) /\
+  (if zg then r_rows (b_reg b) * r_cols (b_reg b) = 0 else BuilderBasics.ginv b (strip E)).
+Inductive reach (E : store) : N -> N -> Prop :=
+| reach_refl a : reach E a a
+| reach_step a s t a' : In (a, s) E -> In t (sn_trans s) -> reach E (t_addr t) a' -> reach E a a'.
+Definition ftargets (st : list unf) : list N :=
+  flat_map (fun u => map t_addr (n_trans (u_node u))) st.
+(* every written node is below some frozen transition of the unfinished stack *)
+Definition Rinv (E : store) (st : list unf) : Prop :=
+  forall a, In a (addrs E) -> exists x, In x (ftargets st) /\ reach E x a.
+
 (* ---------- registry ---------- *)
 Definition cell_ok (E : store) (c : cell) : Prop :=
   c_addr c <> NONE_ADDRESS -> exists s, In (c_addr c, s) E /\ bn_of s = c_node c.
@@ -147,13 +165,13 @@ Definition reg_ok (E : store) (r : registry) : Prop := forall i, cell_ok E (rget
 Definition body (b : builder) : list N := concat (rev (b_out b)).
 Definition bbytes (b : builder) : Prop := Forall (fun x => x < 256) (body b).
 
-Record bytes_ok (ty : N) (E : store) (b : builder) : Prop := mkBytesOk {
-  by_ver : b_version b = 3;
+Record bytes_ok (ver ty : N) (E : store) (b : builder) : Prop := mkBytesOk {
+  by_ver : b_version b = ver;
   by_cnt : b_count b = top_addr E + 1;
   by_len : len (body b) = b_count b;
-  by_hdr : firstn 16 (body b) = u64_le 3 ++ u64_le ty;
+  by_hdr : firstn 16 (body b) = u64_le ver ++ u64_le ty;
   by_tiles : forall fuel acc0, (length E < fuel)%nat ->
-             tiles 3 fuel (rev (body b)) (top_addr E) acc0 = Some (rev E ++ acc0);
+             tiles ver fuel (rev (body b)) (top_addr E) acc0 = Some (rev E ++ acc0);
   by_la : b_last_addr b = match E with [] => NONE_ADDRESS | _ => top_addr E end
 }.
 
@@ -163,8 +181,8 @@ Definition key_bytes (ks : list key) : N := fold_right (fun k a => len k + a) 0 
 Definition lastkey (acc : kmap) : key := match acc with [] => [] | (k, _) :: _ => k end.
 
 (* the part of the invariant that `compile` reads and writes *)
-Definition minv (ty : N) (E : store) (b : builder) : Prop :=
-  store_ok E /\ bytes_ok ty E b /\ reg_ok E (b_reg b).
+Definition minv (ver ty : N) (E : store) (b : builder) : Prop :=
+  store_ok E /\ bytes_ok ver ty E b /\ reg_ok E (b_reg b).
 
 (* the part about the unfinished stack: [k] the key spelled by the pending transitions,
    [L] the language of the stack *)
@@ -180,8 +198,8 @@ Definition top_empty (st : list unf) : Prop :=
   forall u, last_opt st = Some u -> n_trans (u_node u) = [].
 
 (* [acc]: the accepted pairs, newest first.  [G]: global node budget; [rem]: key bytes still to come *)
-Record inv (ty G rem : N) (E : store) (acc : kmap) (b : builder) : Prop := mkInv {
-  i_m : minv ty E b;
+Record inv (ver ty G rem : N) (E : store) (acc : kmap) (b : builder) : Prop := mkInv {
+  i_m : minv ver ty E b;
   i_s : sinv E (b_stack b) (lastkey acc) (rev acc);
   i_top : top_empty (b_stack b);
   i_len : b_len b = len acc;
